@@ -594,7 +594,9 @@ def run(ctx):
     ctx.assumptions += [
         "C09/Gen.v regenerated from cparser.py (translator c09_regen.py); literal scanning, _add_integer_constant and the regular "
         "expression _r_int_literal are hand models (C09/Model.v, C30/Model.v) tied by this run's differential tests",
-        "pycparser, the rest of cparser.py and parse_c_type.c are not modelled: fuzzing only (sanitizer-instrumented back end)",
+        "parse_c_type.c: the memory-safety theorems are imported from coq/C07 (model tied to the unmodified C file by ./check C07); "
+        "pycparser, the rest of cparser.py, ffi_obj.c (_ffi_type) and realize_c_type.c are not modelled: fuzzing only "
+        "(sanitizer-instrumented back end, PYTHONMALLOC=debug child, complexity-limit stream)",
         "reading: TypeError/ValueError raised by the back end while FFI.typeof() builds a well-formed but invalid type are "
         "accepted; exceptions raised inside pycparser count as violations of cdef()/typeof()"]
     evaluate(ctx, generate(ctx))
@@ -604,12 +606,14 @@ MANIFEST = dict(
     technique="Coq proof about the regenerated constant evaluator and the #define path with Python's implicit exceptions made "
               "explicit + differential tie of the models + grammar-based and mutation fuzzing of cdef()/typeof() and of the C "
               "type-string parser under ASan/UBSan",
-    text="Partial. Proved (all expression trees, all texts): _parse_constant raises only CDefError, FFIError or ValueError "
-         "(never ZeroDivisionError/IndexError/KeyError); ValueError only from a negative shift count or a literal on which "
-         "int(s, 16)/int(s, 2) fails (C30_evaluator_closed_partial), and the full closure statement is refuted by these "
-         "(known findings); whatever _r_int_literal accepts _add_integer_constant converts, so '#define' raises only "
-         "CDefError (C30_macros_closed, C30_process_macro_closed). Fuzzed, not proved: pycparser, the other paths of "
-         "cparser.py, parse_c_type.c (no sanitizer report, no crash, only ffi.error/TypeError/ValueError).",
+    text="Partial. Proved (all expression trees, all texts, all type strings): _parse_constant returns a value or raises only "
+         "CDefError/FFIError (C30_evaluator_closed, on the text regenerated from cparser.py: shift-count guard, guarded int(), "
+         "division by zero); whatever _r_int_literal accepts _add_integer_constant converts, so '#define' raises only "
+         "CDefError (C30_macros_closed, C30_process_macro_closed); _preprocess raises only CDefError (C30_preprocess_closed: "
+         "replace() raises ValueError/IndexError and the handler catches exactly these); parse_c_type.c never accesses its "
+         "opcode buffer out of bounds, returns an in-range index or an error, and never reads past the terminating NUL "
+         "(C30_type_parser_*, imported from C07). Fuzzed, not proved: pycparser, the other paths of cparser.py, "
+         "ffi_obj.c/_ffi_type, realize_c_type.c.",
     note="Trusted: Coq kernel; translator c09_regen.py; hand models tied by differential tests; ASan/UBSan as the detector "
          "of out-of-bounds reads in parse_c_type.c; pycparser not modelled.",
     design_ref="DESIGN.md §4 C30")
